@@ -431,6 +431,27 @@ def centroid_sweep(rep, r, n):
             rep.violation('centroid_sources-translate', f'{a.tolist()} + ({dx},{dy}) vs {b.tolist()}', dict(rp, offset=[dx, dy]))
         elif not close(a[::-1], c, 1e-9):
             rep.violation('centroid_sources-transpose', f'{a.tolist()} vs transposed {c.tolist()}', rp)
+        # with a strongly varying error map and an error-weighted fitter: the error cut-out must follow the source
+        xi, yi = int(round(x0)), int(round(y0))
+        if 4 <= xi < nx - 4 and 4 <= yi < ny - 4:
+            gy_, gx_ = np.mgrid[0:ny, 0:nx]
+            err = 0.2 + 0.15 * gx_ + 0.4 * gy_ + 2.0 * ((gx_ + 2 * gy_) % 3)
+            img_s = img + 0.04 * float(img.max()) * (gx_ - xi) + 0.02 * float(img.max()) * (gy_ - yi)   # a sloped sky: the weights matter
+            embed_err = embed(err, NY, NX, dy, dx)
+            embed_err[embed_err == 0] = 1.0
+            with warnings.catch_warnings():
+                warnings.simplefilter('ignore')
+                try:
+                    a2 = np.asarray(centroid_sources(img_s, [xi], [yi], box_size=7, error=err, centroid_func=centroid_2dg), float).ravel()
+                    b2 = np.asarray(centroid_sources(embed(img_s, NY, NX, dy, dx), [xi + dx], [yi + dy], box_size=7, error=embed_err,
+                                                     centroid_func=centroid_2dg), float).ravel()
+                except Exception as e:                              # noqa: BLE001
+                    rep.violation(f'centroid_sources-raises:{type(e).__name__}', f'centroid_sources(error=...) raised {e!r}', rp)
+                    continue
+            rep.count('centroid_sources:error-map')
+            if np.all(np.isfinite(a2)) and np.all(np.abs(a2 - [xi, yi]) < 3) and not close(a2 + np.array([dx, dy]), b2, 2e-4):
+                rep.violation('centroid_sources-translate:error-map', f'error-weighted centroid {a2.tolist()} + ({dx},{dy}) vs {b2.tolist()} on the embedded '
+                              'image and error map', dict(rp, offset=[dx, dy]))
 
 
 def profile_sweep(rep, r, n):
